@@ -113,6 +113,19 @@ def gen_jobs(tier, seed):
         calls.append(ca)
         # an ordinary (non-type) first argument as well
         calls.append(worlds.mkcall([1] + ([inst[0]] if with_inst else [])))
+        if q % 5 == 4:
+            # the type-valued argument through a keyword-only parameter (optional in some methods, absent in others)
+            for m in methods:
+                if rng.random() < 0.7:
+                    m["kwn"], m["kwt"], m["kwreq"] = ["k"], [worlds.cls(rng.choice(tynodes))], [rng.random() < 0.3]
+            base_calls = list(calls)
+            calls = []
+            for c in base_calls[:10]:
+                calls.append(c)
+                for e in rng.sample(tynodes, 3):
+                    c2 = json.loads(json.dumps(c))
+                    c2["kwn"], c2["kwa"] = ["k"], [{"c": e}]
+                    calls.append(c2)
         if with_inst and q % 2 == 0:
             # the type-valued argument in second position
             for m in methods:
